@@ -241,6 +241,12 @@ func c20Check(ctx *Ctx, idx int, cs c20Case) {
 	if ctx.Driver == nil {
 		return
 	}
+	if len(cs.Ok) > 300 {
+		// the model's trace acceptor works on lists (quadratic in the trace length): very large
+		// inputs are judged by the property oracle above only
+		ctx.Rep.Count("large input: oracle only (trace not replayed on the model)")
+		return
+	}
 	res, err := ctx.Driver.Call(map[string]interface{}{"op": "c20.accept", "ok": cs.Ok, "trace": o.Trace})
 	if err != nil {
 		ctx.Rep.Fail(hx.Failure{Kind: "harness-error", Detail: err.Error(), Case: cs, Index: idx})
